@@ -658,6 +658,87 @@ def amount_is_traced(a, traced, box, ev):
     return False
 
 
+def cursor_discipline(fn, b):
+    """The worklist is read as `queue.get(cursor)` at block b.  Structural conditions under which every
+    index is read at most once: the index operand is a plain copy of a local `c`; `c`'s address is never
+    taken; inside the innermost loop around b every assignment to `c` is `c = c + k` (k >= 1); and no path
+    leads from b back to b without passing such an assignment.  Returns None if they hold, else a reason."""
+    t = fn.blocks[b]["term"]
+    if t["k"] != "call" or len(t["args"]) < 2:
+        return "not a call"
+    a = t["args"][1]
+    if a.get("k") not in ("copy", "move") or a["pl"]["p"]:
+        return "index is not a local"
+    cur = a["pl"]["l"]
+    for s in reversed(fn.blocks[b]["stmts"]):
+        if s["k"] == "assign" and not s["dst"]["p"] and s["dst"]["l"] == cur:
+            rv = s["rv"]
+            if rv["k"] == "use" and rv["op"].get("k") in ("copy", "move") and not rv["op"]["pl"]["p"]:
+                cur = rv["op"]["pl"]["l"]
+                continue
+            return "index is computed, not a cursor"
+    loops = [(len(body), h, body) for h, body in fn.loops(unwind=False).items() if b in body]
+    if not loops:
+        return "not in a loop"
+    _, hdr, body = min(loops)
+    steps = set()
+
+    def is_step(blk_i, si):
+        blk = fn.blocks[blk_i]
+        s = blk["stmts"][si]
+        rv = s["rv"]
+
+        def operand_is_cur(o):
+            return o.get("k") in ("copy", "move") and not o["pl"]["p"] and o["pl"]["l"] == cur
+
+        def const_ge1(o):
+            return o.get("k") == "const" and str(o.get("int", "")).isdigit() and int(o["int"]) >= 1
+
+        def add_of_cur(rv2):
+            return rv2["k"] == "bin" and rv2["op"] in ("Add", "AddWithOverflow", "AddUnchecked") and \
+                ((operand_is_cur(rv2["a"]) and const_ge1(rv2["b"])) or (operand_is_cur(rv2["b"]) and const_ge1(rv2["a"])))
+        if add_of_cur(rv):
+            return True
+        if rv["k"] == "use" and rv["op"].get("k") in ("copy", "move"):
+            src = rv["op"]["pl"]["l"]
+            cands = [blk_i] + [pb for _, pb in fn.preds(False)[blk_i]]
+            for cb in cands:
+                stmts = fn.blocks[cb]["stmts"] if cb != blk_i else blk["stmts"][:si]
+                for t2 in reversed(stmts):
+                    if t2["k"] == "assign" and not t2["dst"]["p"] and t2["dst"]["l"] == src:
+                        return add_of_cur(t2["rv"])
+        return False
+
+    for bi, blk in enumerate(fn.blocks):
+        for si, s in enumerate(blk["stmts"]):
+            if s["k"] != "assign":
+                continue
+            rv = s["rv"]
+            if rv["k"] in ("ref", "addr") and rv["pl"]["l"] == cur and (rv.get("mut") or rv["k"] == "addr"):
+                return "the cursor's address is taken"
+            if s["dst"]["l"] == cur and bi in body:
+                if s["dst"]["p"] or not is_step(bi, si):
+                    return "the cursor is written by something other than `cursor += k`"
+                steps.add(bi)
+        t2 = blk["term"]
+        if t2["k"] == "call" and t2["dst"]["l"] == cur and bi in body:
+            return "the cursor is written by a call"
+    # every cycle through b passes a step
+    seen = set()
+    stack = [x for x in fn.succ_blocks(b, False) if x in body]
+    while stack:
+        x = stack.pop()
+        if x in seen:
+            continue
+        seen.add(x)
+        if x in steps:
+            continue
+        if x == b:
+            return "a path returns to the read without advancing the cursor"
+        stack.extend(y for y in fn.succ_blocks(x, False) if y in body)
+    return None
+
+
 class Trace:
     """GATE-7..10 on the worklist-driven trace."""
     id = "TRACE"
@@ -673,6 +754,7 @@ class Trace:
         self.filtered_pass = False     # some pass over an expanded table is filtered by kind
         self.reg_kinds = set()         # kinds for which a registration site was seen (whole run)
         self.any_expansion = False
+        self.cursor_sites = {}         # get-site -> None (discipline holds) | reason
 
     # fields of Link that its Hash / PartialEq read
     def key_fields(self):
@@ -735,6 +817,16 @@ class Trace:
             ks, n = self.key_fields()
             # fields the expansion depends on: the box pointer only
             extra = sorted(k for k in ks if k != "ptr")
+            if any(f[0] == "cursorq" and f[1] == W for f in st.flags):
+                # cursor form: uniqueness of queue elements is established when they are queued
+                eng.obl("GATE-9", "queue-push", ev.b)
+                vptr = mk_field(v, "ptr", LINK)
+                guards = [f for f in st.flags if f[0] == "seen_new" and (f[2] == v or f[2] == vptr)]
+                seeded = [f for f in guards if any(g[0] == "seen_seed" and g[1] == f[1] for g in st.flags)]
+                if not seeded:
+                    eng.violate("GATE-9", "queued-without-seen-guard", "a link is appended to the trace queue without a successful `insert` of that node into the set that also holds the seed: the same object can be queued, and so expanded, more than once", ev.b, st)
+                elif all(f[2] == vptr for f in seeded):
+                    extra = []   # nodes are de-duplicated by pointer alone; other key fields do not matter
             for k in extra:
                 kv = st.variant(mk_field(v, k, LINK))
                 if kv is None and v[0] == "agg":
@@ -763,6 +855,8 @@ class Trace:
                     for k, fv in first[5]:
                         if fv[0] == "agg":
                             fl.append(("wl_seed", root, k, str(fv[4])))
+                        elif k == "ptr":
+                            fl.append(("wl_seedptr", root, fv))
                     return add(st, *fl) if fl else None
         return None
 
@@ -777,6 +871,39 @@ class Trace:
                 if f[0] == "wl_seed" and sub(W, f[1]):
                     fl.append(("wl_initk", W, f[2], f[3]))
             return add(st, *fl)
+        # outcome of a keyed lookup in the result map
+        for f in st.flags:
+            if f[0] == "elem_lookup" and f[3] == inner:
+                E, S, kind = f[1], f[2], f[5]
+                if v == "0":
+                    return add(rem(st, lambda g: g == f), ("elem_absent", E, S))
+                if v == "1":
+                    pend = [g for g in st.flags if g[0] == "elem_pending" and g[1] == E]
+                    st2 = rem(st, lambda g: g == f or g in pend)
+                    slot = mk_field(("variant", inner, "Some", 1), "0", "")
+                    eng.obl("GATE-7", "registration:%s" % KIND_NAMES.get(kind, "any"), b)
+                    eng.obl("GATE-8", "registration:%s" % KIND_NAMES.get(kind, "any"), b)
+                    fl = [("elem_reg", E, S, f[4], kind, None)]
+                    if kind != "1":
+                        fl.append(("elem_acc_pending", E, slot))
+                    return add(st2, *fl)
+        # `while let Some(&node) = queue.get(cursor)`: an append-only queue read through a cursor
+        if inner[0] == "call" and inner[2].startswith("core::slice::") and inner[2].endswith("::get") and v == "1" and len(inner[3]) >= 2:
+            r = inner[3][0]
+            if r[0] == "call" and r[2].endswith("::deref") and r[3]:
+                r = r[3][0]
+            W = mk_deref(r)
+            if any(f[0] == "wl_seed" and sub(W, f[1]) for f in st.flags) or any(f[0] == "cursorq" and f[1] == W for f in st.flags):
+                P = mk_deref(mk_field(("variant", inner, "Some", 1), "0", ""))
+                if inner[1] not in self.cursor_sites:
+                    self.cursor_sites[inner[1]] = cursor_discipline(eng.fn, inner[1])
+                fl = [("popped", W, P), ("cursorq", W, inner[1])]
+                for f in st.flags:
+                    if f[0] == "wl_seed" and sub(W, f[1]):
+                        fl.append(("wl_initk", W, f[2], f[3]))
+                    if f[0] == "wl_seedptr" and sub(W, f[1]):
+                        fl.append(("wl_initptr", W, f[2]))
+                return add(st, *fl)
         # an element of an expanded node's table
         if inner[0] == "call" and inner[2] == "core::iter::Iterator::next" and v == "1":
             src = iter_source(inner[3][0])
@@ -808,6 +935,17 @@ class Trace:
             for f in st.flags:
                 if f[0] == "popped" and ev.args[1] == f[2]:
                     return add(st, ("vis_ins", S, f[2]))
+            if not any(f[0] == "popped" for f in st.flags):
+                # before the crawl starts: the seed is marked as seen (cursor-queue form)
+                return add(st, ("seen_seed", S, ev.args[1]))
+            return None
+        if ev.op in ("remove", "clear", "take", "retain", "drain") and ev.container.endswith("HashSet") and any(f[0] == "cursorq" for f in st.flags):
+            eng.violate("GATE-9", "seen-set-shrinks", "the set that keeps queued nodes unique loses elements during the crawl (`%s`): a node can be queued and expanded again" % ev.op, ev.b, st)
+            return None
+        # lookups in the result map keyed by a table element: `if let Some(c) = map.get_mut(&k) { *c += n } else { map.insert(k, n) }`
+        if ev.op in ("get_mut",) and len(ev.args) > 1:
+            for f, E, target, kind in self._match(st, ev.args[1]):
+                return add(st, ("elem_lookup", E, S, ev.res, target, kind))
             return None
         # writes into the result map keyed by a table element
         if ev.op in ("entry", "insert"):
@@ -815,28 +953,26 @@ class Trace:
             if key is None:
                 return None
             self._note_registration(eng, st, key)
-            for f in list(st.flags):
-                if f[0] == "elem_pending":
-                    E = f[1]
-                    lk = mk_deref(mk_field(E, "0", ""))
-                    target = None
-                    if key == lk or mk_deref(key) == lk:
-                        target = "same"
-                    elif key[0] == "agg" and key[2] == LINK and dict(key[5]).get("ptr") == mk_field(lk, "ptr", LINK):
-                        target = "as:" + str(dict(key[5])["kind"][4]) if dict(key[5]).get("kind", ("",))[0] == "agg" else "as:?"
-                    if target is None:
-                        continue
-                    kind = st.variant(mk_field(lk, "kind", LINK))
-                    st = rem(st, lambda g: g == f)
-                    st = add(st, ("elem_reg", E, S, target, kind, ev.res if ev.op == "entry" else None))
-                    self.elem_arms.add((ev.b, kind))
-                    eng.obl("GATE-7", "registration:%s" % KIND_NAMES.get(kind, "any"), ev.b)
-                    eng.obl("GATE-8", "registration:%s" % KIND_NAMES.get(kind, "any"), ev.b)
-                    if ev.op == "insert":
-                        # plain insert overwrites
-                        if kind in ("0", "2"):
-                            eng.violate("GATE-8", "overwrite-instead-of-accumulate", "the trace stores a forward/loopback count with `insert`, overwriting what other owners contributed", ev.b, st)
-                    return st
+            for f, E, target, kind in self._match(st, key):
+                st = rem(st, lambda g: g == f)
+                st = add(st, ("elem_reg", E, S, target, kind, ev.res if ev.op == "entry" else None))
+                self.elem_arms.add((ev.b, kind))
+                eng.obl("GATE-7", "registration:%s" % KIND_NAMES.get(kind, "any"), ev.b)
+                eng.obl("GATE-8", "registration:%s" % KIND_NAMES.get(kind, "any"), ev.b)
+                if ev.op == "insert":
+                    absent = ("elem_absent", E, S) in st.flags
+                    val = ev.args[2] if len(ev.args) > 2 else None
+                    cnt = mk_deref(mk_field(E, "1", ""))
+                    if not absent:
+                        # plain insert overwrites what other owners contributed (or resets an adopter that is also a target)
+                        eng.violate("GATE-8", "overwrite-instead-of-accumulate", "the trace stores a count with `insert` without knowing the key is new, overwriting what other owners contributed", ev.b, st)
+                    elif kind in ("0", "2") and val != cnt:
+                        eng.violate("GATE-8", "or-insert-not-count", "a forward/loopback target first seen by the trace is not initialised with the entry's count", ev.b, st)
+                    elif kind == "1" and not is_const(val, 0):
+                        eng.violate("GATE-8", "adopter-credited", "the trace credits a positive count to an adopter (backward link)", ev.b, st)
+                    elif kind is None and not (is_const(val, 0)):
+                        eng.violate("GATE-8", "overwrite-instead-of-accumulate", "the trace initialises an entry of unknown kind with a count", ev.b, st)
+                return st
             return None
         if ev.op in ("and_modify", "or_insert", "or_default", "or_insert_with"):
             # entry API continuation: find the registration this entry belongs to
@@ -876,6 +1012,24 @@ class Trace:
                             return add(st, ("elem_acc_pending", E, ev.res))
                     return None
         return None
+
+    def _match(self, st, key):
+        """Pending table elements that `key` (a Link expression or a reference to one) denotes."""
+        out = []
+        for f in list(st.flags):
+            if f[0] == "elem_pending":
+                E = f[1]
+                lk = mk_deref(mk_field(E, "0", ""))
+                target = None
+                k2 = key[1] if key[0] == "ref" else key
+                if key == lk or mk_deref(key) == lk or k2 == lk:
+                    target = "same"
+                elif k2[0] == "agg" and k2[2] == LINK and dict(k2[5]).get("ptr") == mk_field(lk, "ptr", LINK):
+                    target = "as:" + str(dict(k2[5])["kind"][4]) if dict(k2[5]).get("kind", ("",))[0] == "agg" else "as:?"
+                if target is None:
+                    continue
+                out.append((f, E, target, st.variant(mk_field(lk, "kind", LINK))))
+        return out
 
     def _note_registration(self, eng, st, key):
         """Which link kinds does this keyed write into the result map cover?  (whole-run coverage for
@@ -925,6 +1079,16 @@ class Trace:
                 tests = [g for g in st.flags if g[0] == "vis_test" and g[2] == P]
                 ins = [g for g in st.flags if g[0] == "vis_ins" and g[2] == P]
                 ok = False
+                cq = [g for g in st.flags if g[0] == "cursorq" and g[1] == f[1]]
+                if cq:
+                    why = self.cursor_sites.get(cq[0][2])
+                    if why is not None:
+                        eng.violate("GATE-9", "queue-cursor-not-monotone", "the trace reads its queue through an index, but %s: an element can be read, and its node expanded, twice" % why, ev.b, st)
+                    initptr = [g[2] for g in st.flags if g[0] == "wl_initptr" and g[1] == f[1]]
+                    seedok = any(g[0] == "seen_seed" and (g[2] in initptr or any(mk_field(g[2], "ptr", LINK) == ip for ip in initptr)) for g in st.flags)
+                    if not seedok:
+                        eng.violate("GATE-9", "seed-not-marked-seen", "the first queue element is not inserted into the seen-set before the crawl: a link back to it queues and expands it a second time", ev.b, st)
+                    return add(st, ("expanded", P, ev.box))
                 for tflag in tests:
                     if ("assumed_false", tflag[3]) in st.flags and any(i[1] == tflag[1] for i in ins):
                         ok = True
@@ -941,7 +1105,30 @@ class Trace:
             for f in st.flags:
                 if f[0] == "popped" and c[3][1] == f[2]:
                     return add(st, ("vis_guard_ok", f[2]))
+            # discovery-time marking: `if seen.insert(key(link)) { queue.push(link) }`
+            return add(st, ("seen_new", mk_deref(c[3][0]), c[3][1]))
+        if c[2].startswith("hashbrown::HashSet") and c[2].endswith("::insert") and len(c[3]) >= 2 and not truth:
+            # already seen: the target is (or was) queued
+            if any(f[0] == "cursorq" for f in st.flags):
+                eo = elem_of(c[3][1])
+                if eo is not None:
+                    return add(st, ("pushed", eo[0]))
             return None
+        if c[2].startswith("hashbrown::HashMap") and c[2].endswith("::contains_key") and len(c[3]) >= 2:
+            S = mk_deref(c[3][0])
+            for f, E, target, kind in self._match(st, c[3][1]):
+                if not truth:
+                    return add(st, ("assumed_false", c), ("elem_absent", E, S))
+                # already in the map: nothing to add for an adopter; a target still needs its count accumulated
+                st = rem(st, lambda g: g == f)
+                eng.obl("GATE-7", "registration:%s" % KIND_NAMES.get(kind, "any"), b)
+                fl = [("elem_reg", E, S, target, kind, None)]
+                if kind != "1":
+                    fl.append(("elem_acc_pending", E, None))
+                eo = elem_of(c[3][1])
+                if eo is not None:
+                    fl.append(("pushed", eo[0]))
+                return add(st, *fl)
         if c[2].endswith("::contains") or c[2].endswith("::contains_key"):
             if not truth:
                 return add(st, ("assumed_false", c))
@@ -970,7 +1157,7 @@ class Trace:
     def on_event(self, eng, ev, st):
         if ev.kind == "store":
             for f in st.flags:
-                if f[0] == "elem_acc_pending" and ev.place == mk_deref(f[2]):
+                if f[0] == "elem_acc_pending" and f[2] is not None and ev.place == mk_deref(f[2]):
                     cnt = mk_deref(mk_field(f[1], "1", ""))
                     v = ev.value
                     old = mk_deref(f[2])
